@@ -444,10 +444,16 @@ def maxof(*args):
         elif isinstance(arg, RoAffine):
             if this_model is None:
                 this_model = arg.affine.model.top
+            elif arg.affine.model.top is not this_model:
+                raise ValueError('Models not match.')
         elif isinstance(arg, (DecRule, DecRuleSub)):
             arg = arg.to_affine()
+            arg_model = (arg.affine.model if isinstance(arg, RoAffine)
+                         else arg.model)
             if this_model is None:
-                this_model = arg.model.top
+                this_model = arg_model.top
+            elif arg_model.top is not this_model:
+                raise ValueError('Models not match.')
         elif isinstance(arg, Real):
             arg = np.array([arg])
         elif not isinstance(arg, np.ndarray):
